@@ -137,7 +137,21 @@ fn one_case(ctx: &Ctx, case: u64, l: &mut Local) {
     let idx = case / 6;
     let bound = idx % 2 == 0;
     let iss_a = "https://issuer.example/A";
-    let t = match make_token(ctx, &mut r, alg, fmt, 0, iss_a, bound) {
+    // the main token's issuer string varies in ways a normalising implementation would rewrite;
+    // the resolver must be asked for exactly the string the token carries
+    let iss_main = *r.pick(&[
+        "https://issuer.example/A",
+        "https://Issuer.EXAMPLE/A",
+        "HTTPS://issuer.example:443/A",
+        "https://issuer.example/a/../A",
+        "https://issuer.example/%41",
+        " https://issuer.example/A ",
+        "did:Example:A",
+        "https://issuer.example/A/",
+        "https://ISSUER.example/é",
+        "",
+    ]);
+    let t = match make_token(ctx, &mut r, alg, fmt, 0, iss_main, bound) {
         Some(t) => t,
         None => {
             l.count("skipped.token-creation-failed");
@@ -208,6 +222,12 @@ fn one_case(ctx: &Ctx, case: u64, l: &mut Local) {
                 ops.push(CharOp::Sub(*r.pick(&alpha)));
                 ops.push(CharOp::Del);
                 ops.push(CharOp::Ins(*r.pick(&alpha)));
+            }
+            // at the borders of the string / of each segment every insertion character is tried
+            // (a '.' or '=' appended behind the signature is a classic lenient-parser case)
+            let at_border = pos == 0 || pos == text.len() || text.as_bytes().get(pos) == Some(&b'.') || (pos > 0 && text.as_bytes()[pos - 1] == b'.');
+            if at_border {
+                ops.extend(alpha.iter().map(|c| CharOp::Ins(*c)));
             }
             for op in ops {
                 let edited = match tamper::apply(text, pos, op) {
@@ -304,6 +324,12 @@ fn one_case(ctx: &Ctx, case: u64, l: &mut Local) {
         }
     }
     structural(&mut j, "signature-extended", Some(format!("{}.{}.{}A", segs[0], segs[1], segs[2])), &fixed);
+    if fmt == Fmt::Compact {
+        for (k, tail) in [".", ".A", "..", ".AAAA.BBBB", ".e30"].iter().enumerate() {
+            structural(&mut j, &format!("fourth-segment-{k}"), Some(format!("{}{}", t.parts.jwt, tail)), &fixed);
+        }
+        structural(&mut j, "leading-dot", Some(format!(".{}", t.parts.jwt)), &fixed);
+    }
     structural(&mut j, "signature-padded", Some(format!("{}.{}.{}=", segs[0], segs[1], segs[2])), &fixed);
     structural(&mut j, "signature-zeroed", Some(format!("{}.{}.{}", segs[0], segs[1], "A".repeat(segs[2].len()))), &fixed);
     // alg rewrites (header re-encoded; signature kept, emptied, or recomputed by the attacker)
@@ -323,10 +349,24 @@ fn one_case(ctx: &Ctx, case: u64, l: &mut Local) {
     if alg != Alg::HS256 {
         // classic confusion: alg HS256, MAC keyed with the issuer's PUBLIC key bytes; resolver hands out the public key
         let payload: Value = t.parts.payload().unwrap();
-        for variant in 0..2 {
-            let secret = if variant == 0 { keys::issuer_public_bytes(alg, 0) } else { keys::issuer_public_bytes(alg, 0).into_iter().filter(|b| *b != b'\n').collect() };
-            let forged = api::sign_raw(&json!({"alg": "HS256", "typ": "JWT"}), &payload, jsonwebtoken::Algorithm::HS256, &jsonwebtoken::EncodingKey::from_secret(&secret));
-            structural(&mut j, &format!("hs256-keyed-with-public-key-v{variant}"), Some(forged), &fixed);
+        // secret = every encoding of the public key an attacker can derive: PEM text, PEM without
+        // newlines, SPKI DER, raw key material (uncompressed EC point / 32-byte Ed25519 key), and the
+        // base64url forms of the raw material
+        let raw = keys::issuer_public_raw(alg, 0);
+        let secrets: Vec<(&str, Vec<u8>)> = vec![
+            ("pem", keys::issuer_public_bytes(alg, 0)),
+            ("pem-no-newlines", keys::issuer_public_bytes(alg, 0).into_iter().filter(|b| *b != b'\n').collect()),
+            ("der", keys::issuer_public_der(alg, 0)),
+            ("raw", raw.clone()),
+            ("raw-without-prefix", raw.iter().skip(1).copied().collect()),
+            ("raw-b64url", crate::model::b64e(&raw).into_bytes()),
+            ("empty", vec![]),
+        ];
+        for (name, secret) in secrets {
+            for (hs, a) in [("HS256", jsonwebtoken::Algorithm::HS256), ("HS384", jsonwebtoken::Algorithm::HS384), ("HS512", jsonwebtoken::Algorithm::HS512)] {
+                let forged = api::sign_raw(&json!({"alg": hs, "typ": "JWT"}), &payload, a, &jsonwebtoken::EncodingKey::from_secret(&secret));
+                structural(&mut j, &format!("{}-keyed-with-public-key-{name}", hs.to_lowercase()), Some(forged), &fixed);
+            }
         }
     }
     // signed by a different key of the same family / resolver returning other keys
